@@ -216,3 +216,104 @@ def check_c08(res_obj, cits, out):
         for i in lst[1:]:
             if not isinstance(cits[i], FullCitation) and i < lst[0]:
                 res_obj.v("member-before-its-full-citation", f"{lst}")
+
+
+# --------------------------------------------------------------------------------------
+# Abstract model of the alphabet letters (what each snippet was WRITTEN to be), independent of anything eyecite
+# computes from the objects (corrected_reporter, strip_punct, page flags ...). Used on alphabet sequences only.
+
+CASE_OF = {"FA": "A", "FA2": "A", "FA0": "A", "FB": "B", "FC": "C", "FH": "H"}  # full case letters -> case label
+IDENTITY_FULL = {"FP", "JP"}  # placeholder pages: every occurrence is its own resource
+OTHER_FULL = {"LAW": "LAW", "JRN": "JRN"}
+NAMES = {"A": {"Alpha", "Beta"}, "B": {"Gamma", "Delta"}, "C": {"Alpha", "Omega"}, "P": {"Sigma", "Tau"}, "H": {"Eta", "Theta"}}
+NAMELESS = {"FA0"}  # cited without party names
+RV = {"A": ("U.S.", "10"), "B": ("U.S.", "10"), "C": ("F.2d", "30"), "P": ("U.S.", "585"), "H": ("Hill", "10")}
+PAGE = {"A": 100, "B": 200, "C": 300, "P": None, "H": 100, "LAW": "nopage", "JRN": 1, "JP": "placeholder-journal"}
+SHORT = {"S_A": ("U.S.", "10", "Beta"), "S_amb": ("U.S.", "10", None), "S_C": ("F.2d", "30", None), "S_for": ("F.3d", "77", None),
+         "S_Cr": ("Cranch", "10", None), "S_P": ("U.S.", "585", None)}
+SUPRA = {"SU_B": "Delta", "SU_amb": "Alpha", "SU_unk": "Zeta"}
+IDPIN = {"ID": None, "ID_ok": 101, "ID_far": 999, "ID_bad": "bad"}
+
+
+def abstract_resolution(seq):
+    """Expected grouping of an alphabet sequence, as lists of indices, from the written meaning of each letter."""
+    fulls = []  # (resource key, case label or None, index)
+    groups = {}
+    order = []
+    last = None
+    for i, l in enumerate(seq):
+        res = None
+        if l in CASE_OF:
+            res = CASE_OF[l]
+            fulls.append((res, CASE_OF[l], i, l))
+        elif l in IDENTITY_FULL:
+            res = (l, i)
+            fulls.append((res, "P" if l == "FP" else None, i, l))
+        elif l in OTHER_FULL:
+            res = OTHER_FULL[l]
+            fulls.append((res, None, i, l))
+        elif l in SHORT:
+            rep, vol, ante = SHORT[l]
+            cands = [(r, c, lt) for r, c, _, lt in fulls if c and RV[c] == (rep, vol)]
+            rs = list(dict.fromkeys(r for r, c, lt in cands))
+            if len(rs) == 1:
+                res = rs[0]
+            elif ante:
+                m = list(dict.fromkeys(r for r, c, lt in cands if lt not in NAMELESS and ante in NAMES[c]))
+                res = m[0] if len(m) == 1 else None
+        elif l in SUPRA:
+            m = list(dict.fromkeys(r for r, c, _, lt in fulls if c and lt not in NAMELESS and SUPRA[l] in NAMES[c]))
+            res = m[0] if len(m) == 1 else None
+        elif l == "REF_B":
+            m = list(dict.fromkeys(r for r, c, _, lt in fulls if c and lt not in NAMELESS and "Gamma" in NAMES[c]))
+            res = m[0] if len(m) == 1 else None
+        elif l in IDPIN:
+            if last is not None:
+                first_letter = seq[groups[last][0]]
+                ck = CASE_OF.get(first_letter) or ("P" if first_letter == "FP" else first_letter)
+                page = PAGE[ck]
+                pin = IDPIN[l]
+                if page is None:
+                    res = None
+                elif pin is None or page in ("nopage", "placeholder-journal"):
+                    res = last
+                elif pin == "bad":
+                    res = None
+                elif page <= pin <= page + MAX_PAGES:
+                    res = last
+        last = res
+        if res is not None:
+            if res not in groups:
+                groups[res] = []
+                order.append(res)
+            groups[res].append(i)
+    return [groups[r] for r in order]
+
+
+def check_abstract(res_obj, seq, cits, out, safety_only):
+    """Compare the implementation's grouping of an alphabet sequence with the abstract model.
+    safety_only: only attachments made by the implementation are judged (each must be the model's)."""
+    got = groups_as_indices(cits, out)
+    exp = abstract_resolution(seq)
+    if got == exp:
+        return
+    owner_got = {i: tuple(g) for g in got for i in g}
+    owner_exp = {i: tuple(g) for g in exp for i in g}
+    for i, l in enumerate(seq):
+        g, e = owner_got.get(i), owner_exp.get(i)
+        if g == e:
+            continue
+        full = l in CASE_OF or l in IDENTITY_FULL or l in OTHER_FULL
+        if full:
+            res_obj.v("abstract:full-citations-grouped-differently", f"{seq}: implementation {got}, written meaning {exp}")
+            return
+        if g is not None:
+            # attached where the written meaning says "unresolved" or "elsewhere"
+            ge = [j for j in g if j < i]
+            ee = [j for j in (e or ()) if j < i]
+            if ge != ee:
+                res_obj.v(f"abstract:attached-against-written-meaning:{l}", f"{seq}: #{i} {l} grouped as {list(g)}, written meaning {list(e) if e else None}")
+                return
+        elif not safety_only:
+            res_obj.v(f"abstract:left-unresolved:{l}", f"{seq}: #{i} {l} unresolved, written meaning {list(e)}")
+            return
